@@ -61,14 +61,31 @@ int main(int argc, char** argv)
     // C12, after the regular cases (their numbers stay): two-scale couplings (0.125 and 2) with threshold 1/4, so that rows
     // have weak couplings to coarse points next to strong ones, across process boundaries too
     int nextra12 = c12 ? ncases : 0;
-    for (int it0 = 0; it0 < ncases + nenum + nextra12; it0++)
+    // C13, distributed, after everything else (case numbers stay): random sparse *directed* strength graphs on 3..9 vertices in
+    // which every vertex has a dependency of its own (so the isolated-targets finding does not apply), layouts with empty
+    // ranks, CLJP and PMIS in turn, weights a random permutation of k/n — one of them exactly 0
+    int ndirected = (!c12 && !seq && np > 1) ? (E.thorough ? 1200 : 300) : 0;
+    vh::Rng gd(E.seed * 179424673 + 131);
+    for (int it0 = 0; it0 < ncases + nenum + nextra12 + ndirected; it0++)
     {
-        bool twoscale = it0 >= ncases + nenum; int it = twoscale ? (it0 - ncases - nenum) : it0;
-        bool enumer = !twoscale && it >= ncases;
+        bool directed = it0 >= ncases + nenum + nextra12;
+        bool twoscale = !directed && it0 >= ncases + nenum; int it = directed ? (it0 - ncases - nenum - nextra12) : twoscale ? (it0 - ncases - nenum) : it0;
+        bool enumer = !twoscale && !directed && it >= ncases;
         int cap = 2 + std::min(28, it / 2);
         int n = enumer ? 0 : std::max(seq ? 1 : np, g.range(1, cap + (seq ? 0 : np)));
         vh::Trip t; double theta; std::vector<double> w; int split, interp;
-        if (!enumer) {
+        if (directed) {
+            n = gd.range(3, 9);
+            t.n_rows = t.n_cols = n;
+            for (int i = 0; i < n; i++) { t.r.push_back(i); t.c.push_back(i); t.v.push_back(10); }
+            for (int i = 0; i < n; i++) { int forced = (i + 1 + gd.below(n - 1)) % n;
+                for (int j = 0; j < n; j++) if (j != i && (j == forced || gd.coin(1, 4))) { t.r.push_back(i); t.c.push_back(j); t.v.push_back(-1); } }
+            theta = 0.25;
+            w.resize(n); std::vector<int> perm(n); for (int i = 0; i < n; i++) perm[i] = i;
+            for (int i = n - 1; i > 0; i--) std::swap(perm[i], perm[gd.below(i + 1)]);
+            for (int i = 0; i < n; i++) w[i] = (double)perm[i] / n;
+            split = (it % 2) ? 3 : 1; interp = 0;
+        } else if (!enumer) {
             t = gen_mmatrix(g, n, g.coin(2, 3), twoscale);
             double thetas[] = { 0.0, 0.25, 0.5, 0.125 }; theta = thetas[g.below(4)]; if (twoscale) theta = 0.25;
             w = gen_weights(g, n);
@@ -105,7 +122,8 @@ int main(int argc, char** argv)
             delete S; delete A;
         } else {
             int style = g.coin() ? 1 : 2 + g.below(2);
-            std::vector<int> R = vh::compose(g, n, np, style);
+            if (directed) style = 1 + gd.below(3);
+            std::vector<int> R = vh::compose(directed ? gd : g, n, np, style);
             if (enumer && np == 2) { int cut = 1 + (int)((it / 5) % (n - 1)); R = { cut, n - cut }; }      // every cut position in turn
             vh::Layout L; L.kind = 1; L.rows = R; L.cols = R; L.first_row.assign(np, 0); for (int p = 1; p < np; p++) L.first_row[p] = L.first_row[p - 1] + R[p - 1]; L.first_col = L.first_row;
             int tap = (np > 1 && g.coin(1, 3)) ? 1 : 0;
@@ -126,7 +144,13 @@ int main(int argc, char** argv)
             auto allst = flat(G(st)); auto allhalo = flat(G(halo)); auto rows = flat(G({ (long long)lr }));
             if (!c12) {
                 bool want = E.want();
-                if (rank == 0 && want) { vh::Case c("C13", "par"); c.i(split).i(n).i(np).i(tap).vec(sents).dvec(w).vec(allst).vec(allhalo).vec(rows); c.write(E.out); }
+                if (rank == 0 && want) { vh::Case c("C13", "par"); c.i(split).i(n).i(np).i(tap).vec(sents).dvec(w).vec(allst).vec(allhalo).vec(rows);
+                    // CLJP / PMIS: the labels of the real sequential routine on the assembled matrix with the same weights ("the distributed
+                    // labels of all non-isolated points equal the sequential labels for every partition")
+                    std::vector<int> sg;
+                    if (split == 1 || split == 3) { CSRMatrix* Ag = vh::make_csr(t); Ag->sort(); Ag->move_diag(); CSRMatrix* Sg = Ag->strength(Classical, theta);
+                        seq_split(split, Sg, sg, w); delete Sg; delete Ag; }
+                    c.vec(sg); c.write(E.out); }
             } else {
                 if (random_states) { vh::Rng gs(E.seed * 97 + it);     // same random promotions on every rank, applied to owners and halos alike
                     std::vector<int> promote(n); for (int i = 0; i < n; i++) promote[i] = gs.coin(1, 4);
